@@ -16,16 +16,16 @@ theorem Out.mono_env {W : World} {lc : Nat × Nat} {d pos e : Nat} {L T : List V
   | sig g s =>
     cases g with
     | err k => exact h
-    | brk => obtain ⟨hd, L', h1, h2, h3⟩ := h; exact ⟨hd, L', h1, hsg _ _ h2, h3⟩
-    | cont => obtain ⟨hd, L', h1, h2, h3⟩ := h; exact ⟨hd, L', h1, hsg _ _ h2, h3⟩
+    | brk => obtain ⟨L', h1, h2, h3⟩ := h; exact ⟨L', h1, hsg _ _ h2, h3⟩
+    | cont => obtain ⟨L', h1, h2, h3⟩ := h; exact ⟨L', h1, hsg _ _ h2, h3⟩
     | ret v => exact h
   | timeout => trivial
   | stuck w => trivial
 
-theorem compS_shape_wf {s : Stmt} {Γ : TEnv} {next : Nat} {il : Bool} {c : Code} {τ : Ty} {Γ1 : TEnv} {n1 : Nat}
-    (h : compS Γ next il s = some (c, τ, Γ1, n1)) (hwf : WfΓ Γ next) :
+theorem compS_shape_wf {s : Stmt} {Γ : TEnv} {next d : Nat} {il : Bool} {c : Code} {τ : Ty} {Γ1 : TEnv} {n1 : Nat}
+    (h : compS Γ next d il s = some (c, τ, Γ1, n1)) (hwf : WfΓ Γ next) :
     (Γ1 = Γ ∨ ∃ e, Γ1 = e :: Γ) ∧ WfΓ Γ1 n1 := by
-  have hm := compS_mono s _ _ _ _ _ _ _ h
+  have hm := compS_mono s _ _ _ _ _ _ _ _ h
   cases s with
   | let_ p e =>
     cases p <;> simp only [compS] at h <;> try (simp at h; done)
@@ -34,7 +34,7 @@ theorem compS_shape_wf {s : Stmt} {Γ : TEnv} {next : Nat} {il : Bool} {c : Code
     · rename_i heq
       simp only [Option.some.injEq, Prod.mk.injEq] at h
       obtain ⟨_, _, rfl, rfl⟩ := h
-      have := compE_mono e _ _ _ _ _ heq
+      have := compE_mono e _ _ _ _ _ _ heq
       exact ⟨.inr ⟨_, rfl⟩, by omega, hwf⟩
     · simp at h
   | assign x op e =>
@@ -48,7 +48,7 @@ theorem compS_shape_wf {s : Stmt} {Γ : TEnv} {next : Nat} {il : Bool} {c : Code
           exact ⟨.inl rfl, hwf.mono hm⟩
         · simp at h
       · simp at h
-    · obtain ⟨_, _, _, _, _, _, _, _, rfl⟩ := compS_assign_inv op hop x e Γ next il c τ Γ1 n1 h
+    · obtain ⟨_, _, _, _, _, _, _, _, rfl⟩ := compS_assign_inv op hop x e Γ next d il c τ Γ1 n1 h
       exact ⟨.inl rfl, hwf.mono hm⟩
   | expr e =>
     simp only [compS] at h
@@ -112,7 +112,6 @@ theorem simSs_succ {W : World} {Pg : Prog} {n : Nat} (hS : SimS W Pg n) (hSs : S
       · rename_i c t Γ1 n1 heq
         simp only [Option.some.injEq, Prod.mk.injEq] at hc
         obtain ⟨rfl, rfl, rfl⟩ := hc
-        simp only [depthSafeSs, Bool.and_true] at hd
         have ih := hS s st Γ next blk c t Γ1 n1 lc d pos L T heq hd hcode henv hwf hlen
         obtain ⟨hshape, _⟩ := compS_shape_wf heq hwf
         simp only [evalSs]
@@ -129,14 +128,13 @@ theorem simSs_succ {W : World} {Pg : Prog} {n : Nat} (hS : SimS W Pg n) (hSs : S
         · rename_i cr t n2 heq2
           simp only [Option.some.injEq, Prod.mk.injEq] at hc
           obtain ⟨rfl, rfl, rfl⟩ := hc
-          rw [depthSafeSs, Bool.and_eq_true] at hd
-          have hm1 := compS_mono s _ _ _ _ _ _ _ heq
-          have hm2 := compSs_mono (.cons s2 r) _ _ _ _ _ _ heq2
+          have hm1 := compS_mono s _ _ _ _ _ _ _ _ heq
+          have hm2 := compSs_mono (.cons s2 r) _ _ _ _ _ _ _ heq2
           simp only [resolveAt_append] at hcode
           have hc1 := codeAt_append_left hcode
           have hc2 := codeAt_append_right hcode
           simp only [resolveAt_length] at hc2
-          have ih := hS s st Γ next false c t0 Γ1 n1 lc d pos L T heq hd.1 hc1 henv hwf (by omega)
+          have ih := hS s st Γ next false c t0 Γ1 n1 lc d pos L T heq hd hc1 henv hwf (by omega)
           obtain ⟨hshape, hwf1⟩ := compS_shape_wf heq hwf
           simp only [evalSs]
           cases hr : evalS n Pg st s with
@@ -145,7 +143,7 @@ theorem simSs_succ {W : World} {Pg : Prog} {n : Nat} (hS : SimS W Pg n) (hSs : S
             obtain ⟨L1, hst1, henv1, hl1, _⟩ := ih
             simp only [Bool.false_eq_true, if_false, List.append_nil] at hst1
             simp only [Res.bind]
-            have ihr := hSs (.cons s2 r) s1 Γ1 n1 blk cr t n2 lc d (pos + c.length) L1 T heq2 hd.2 hc2 henv1 hwf1
+            have ihr := hSs (.cons s2 r) s1 Γ1 n1 blk cr t n2 lc d (pos + c.length) L1 T heq2 hd hc2 henv1 hwf1
               (by omega)
             have hend : pos + (c ++ cr).length = pos + c.length + cr.length := by
               simp only [List.length_append]; omega
